@@ -128,7 +128,10 @@ func (c *RedisCache) Get(ctx context.Context, k []byte) (storedTime, expireTime 
 	}
 
 	start := time.Now()
-	res := c.client.Do(ctx, c.client.B().Get().Key(rueidis.BinaryString(k)).Build())
+	// The command may outlive this call: Do returns when ctx is done although
+	// the command is still queued. It must not refer to k, which the caller
+	// releases then.
+	res := c.client.Do(ctx, c.client.B().Get().Key(string(k)).Build())
 	b, err := res.AsBytes()
 	if err != nil {
 		if errors.Is(err, rueidis.Nil) { // miss
